@@ -126,6 +126,11 @@ def literals(sh, tname, targs, quick):
         for p in ph[:: (3 if quick else 1)]:
             lits.append(t + p)
             lits.append(p + t)
+    # whitespace-only text around a sole placeholder (still text: it must be printed)
+    for t in (" ", "\n", "\t "):
+        for p in ph[:: (5 if quick else 2)]:
+            lits.append(p + t)
+            lits.append(t + p)
     step = 7 if quick else 3
     if tname != "star":
         for i, p in enumerate(ph):
@@ -175,7 +180,7 @@ def tail_for(targs, head=""):
 
 
 def lit_rs(s):
-    return '"' + s.replace("\\", "\\\\").replace('"', '\\"') + '"'
+    return '"' + s.replace("\\", "\\\\").replace('"', '\\"').replace("\n", "\\n").replace("\t", "\\t") + '"'
 
 
 def variant_code(sh, vname, attr, lit, targs, self_path):
